@@ -17,7 +17,7 @@ CHECKS.update({
          'Every well-typed tree of the families E1 (every operator over every leaf tuple), T (the left-hand side of each rewrite rule '
          'with every leaf/constant choice on both sides of its side condition), N (cancellation rules fed with all single-point twins) '
          'and E2 (depth 2) at widths 1/8/16/32/64 is simplified by the real expr_simp on fresh objects and compared with irsem on all '
-         '2^16 valuations (w=8) or the full boundary product; termination under a watchdog; the argument must stay unmodified.',
+         '2^16 valuations (w=8) or the full boundary product (a segment selector selects a different address space); termination under a CPU-time watchdog; the argument must stay unmodified.',
          'Trusts mc/irsem.py (cross-checked against big-int arithmetic at start-up). Valuations exhaustive only at widths 8 and 1; depth <= 2 plus targeted depth 3.', '4 C05'),
  'C15': ('exploration', 'bounded exhaustive enumeration (all nodes, all ordered pairs, all replacement maps of a pool) against structural/semantic reference',
          'Pool with every node kind, segmented memory, assignments, flagged identifiers, and all single-point mutants/twins of the exemplars: '
@@ -27,13 +27,13 @@ CHECKS.update({
  'C16': ('exploration', 'bounded exhaustive enumeration: dependency probing on the full valuation grid + reference unifier',
          'For every tree of the read-set family the real dependence on each identifier / memory cell is decided on the complete valuation '
          'grid and must be reported by get_r (both mem_read modes); get_w names the destination. Every (pattern, binding) instance and every '
-         'single-point mutant of it is matched by the real MatchExpr and compared with a reference unifier.',
+         'single-point mutant of it (bindings incl. the wildcard identifiers themselves), and every pair of 2-/3-slot concatenation tilings with bare wildcard parts, is matched by the real MatchExpr and compared with a reference unifier; read sets are queried in both orders on fresh objects.',
          'Trusts irsem; dependence decided on the enumerated grid; completeness of MatchExpr not demanded.', '4 C16'),
 })
 CHECKS.update({
  'C13': ('exploration', 'bounded exhaustive enumeration with metamorphic oracles (idempotence, all permutations x bracketings, cross-process hash-seed comparison)',
          'Idempotence on a fresh structural copy of every simplified tree of the families; for every multiset of 2..4 operands from a 12-element '
-         'alphabet with tie-twins and each of + * ^ & |, ALL permutations x ALL binary bracketings + the flat form must simplify identically; '
+         'alphabet with tie-twins (and pairs differing in one field of one node) and each of + * ^ & |, ALL permutations x ALL binary bracketings + the flat form must simplify identically, also over shared operand objects and below 11 one-hole contexts; '
          'every rendering (simplified enumeration, decoded text in both syntaxes, lifted semantics, read sets, machine dumps) is recomputed in '
          'fresh processes under PYTHONHASHSEED 0..3 (thorough 0..7) and compared line by line.',
          'Metamorphic: no external oracle. Seed independence is decided for the enumerated seeds only.', '4 C13'),
@@ -41,7 +41,7 @@ CHECKS.update({
          'Every tree of the families x every binding pattern {absent, boundary constants, symbolic expressions incl. cond-of-constants} per '
          'identifier, plus same-address memory cells of 8/16/32 bits read back at 8..64 bits through constant/symbolic/unbound bases, each on a '
          'fresh eval_abs; result compared with reference substitution on all 2^16 valuations (w=8) or the boundary product; all-constant inputs '
-         'must fold to the ExprInt the operators define (n-ary included).',
+         'must fold to the ExprInt the operators define (n-ary included; rotate-through-carry counts 0..31 at 8/16/32 bits; counts wider than the value).',
          'Trusts irsem. Memory bindings only at addresses already in evaluated form (overlap is C07).', '4 C06'),
 })
 CHECKS.update({
@@ -49,20 +49,21 @@ CHECKS.update({
          'Every string of S_x86 (prefix sets x 4 opcode maps x all 256 opcodes x all 256 ModRM x SIB classes x tails) is decoded by the real '
          'x86mnemo.dis and by GNU objdump on the same padded slot; length, raw bytes and the normal form of the Intel rendering (mnemonic class, '
          'operand kinds, registers, base/index/scale, displacement, segment, immediate, size keyword, branch displacement) are compared; a '
-         'difference counts only if llvm-mc does not side with miasmX. Strings rejected by either decoder or carrying a superfluous prefix are skipped.',
+         'difference counts only if llvm-mc does not side with miasmX. Strings rejected by either decoder or carrying a superfluous prefix are skipped. '
+         'Quick: 7 prefix sets over the full ModRM x 14 SIB classes + 13 prefix pairs over a reduced ModRM set; thorough: 18 prefix sets x 5 tails.',
          'Trusts GNU objdump 2.40 + llvm-mc 14 and the synonym/normal-form table in mc/x86ref.py. Tail bytes are fixed patterns.', '4 C01'),
  'C17': ('exploration', 'bounded exhaustive enumeration against a hand-written control-flow table and the target formula',
          'Every string of S_x86 both decoders accept: breakflow/splitflow/dstflow against the IA-32 control-flow table (cross-checked per case with '
          'objdump\'s mnemonic), getnextflow = offset + length; every direct relative form x boundary displacements x 20 instruction offsets up to '
-         '2^32-3 through a virtual 4 GiB stream: getdstflow = offset + length + sext(disp) mod 2^opsize.',
+         '2^32-3 through a virtual 4 GiB stream (incl. 66, 67 and 66+67 prefixed forms in both orders): getdstflow = offset + length + sext(disp) mod 2^opsize.',
          'Trusts the control-flow table in mc/props/c17.py and objdump for the cross-check.', '4 C17'),
 })
 CHECKS.update({
  'C10': ('exploration', 'bounded exhaustive enumeration of byte strings (with every truncation and stream offset) and of token sequences against a totality contract',
          'Every string of S_x86 without any filter, every shorter prefix of every distinct decoded instruction, and decoding from streams at offsets '
          '0/1/7 with and without trailing bytes; every token sequence up to length 3 over 64 tokens, 5 over 12, 7 (thorough 8) over 5, and every '
-         'single-token edit of a corpus of valid lines, through asm and asm_att. Contract: None or a renderable instruction with consistent '
-         'length/offset bookkeeping; a list or ValueError; 5 s watchdog.',
+         'single-token edit of a corpus of valid lines (incl. all bracket productions and constant arithmetic), through asm and asm_att. Contract: None or a renderable instruction with consistent '
+         'length/offset bookkeeping; a repeated size prefix consumes exactly one more byte; a list or ValueError; 5 s CPU-time watchdog.',
          'ValueError is taken as the documented assembler error.', '4 C10'),
  'C11': ('exploration', 'bounded exhaustive enumeration of decodable instructions through an independent IR type checker',
          'Every string of S_x86 that miasmX decodes, objdump accepts and whose mnemonic has lifted semantics (incl. 66/67 prefix sets) is lifted; '
@@ -71,7 +72,7 @@ CHECKS.update({
  'C18': ('exploration', 'complete enumeration of constrained-bit assignments per class pair (all 2^32 words) + bounded exhaustive word space against llvm-mc',
          'Unambiguity is decided for all 2^32 words: per-field acceptance sets come from the real mask check() methods, every assignment of each '
          'connected component of constrained bits is enumerated for every class pair, witnesses re-checked on the real check(). The structured word '
-         'space (64 primary x 2048 low patterns x operand patterns + D-form immediates + all BO x BI + SPRs) is decoded, re-encoded, rendered, '
+         'space (64 primary x 2048 low patterns x operand patterns + D-form immediates + all BO x BI + every SPR number + every leading-bit pattern of the branch displacements) is decoded, re-encoded, rendered, '
          're-assembled, and (class, mnemonic) compared with llvm-mc through a reviewed relation table; unclaimed words must not decode.',
          'Trusts llvm-mc 14 and the reviewed table mc/ppc_llvm_pairs.json.', '4 C18'),
 })
@@ -79,7 +80,7 @@ CHECKS.update({
  'C02': ('exploration', 'bounded exhaustive enumeration of (line, candidate) pairs against reference disassembler and assembler',
          'Lines rendered from structured specs (whole assembler vocabulary x operand-shape alphabet incl. every width boundary immediate, arity 0..2, '
          '+ corpus for 3-operand forms); EVERY candidate of asm(line) is decoded by GNU objdump and its normal form compared with the spec\'s '
-         '(GNU as adjudicates spelling conventions); the AT&T direction feeds binutils\' transliteration to asm_att and compares every candidate.',
+         '(GNU as adjudicates spelling conventions, but the VALUE of an immediate is judged against the line only); the AT&T direction feeds binutils\' transliteration to asm_att and compares every candidate.',
          'Trusts GNU objdump/as 2.40 and the normal form of mc/x86ref.py. Shape alphabet, not every displacement.', '4 C02'),
  'C03': ('exploration', 'bounded exhaustive enumeration with a round-trip (metamorphic) oracle; GNU as decides "canonical"',
          '(a) every accepted line x every distinct candidate: dis accepts it, consumes it entirely, and it is among asm(str(dis(b))). (b) every string '
@@ -92,31 +93,31 @@ CHECKS.update({
          'Relative branches and absolute numeric memory operands are excluded from the GNU as part, as the property says.', '4 C09'),
  'C19': ('exploration', 'bounded exhaustive enumeration with metamorphic oracle (equality of candidate sets across spellings)',
          'Every accepted line of L_asm x every applicable presentation-only rewrite (thorough: all compatible pairs) must give the identical candidate '
-         'set; the AT&T transliteration by binutils must give the identical set through asm_att.',
+         'set; all six bracket productions (with symbols and constant arithmetic) against the all-inside spelling; both AT&T transliterations by binutils (plain and -M suffix) must give the identical set through asm_att, as must AT&T-side rewrites (spacing, number base, operand order of xchg/test).',
          'No external oracle for Intel spellings; binutils supplies the AT&T text.', '4 C19'),
 })
 CHECKS.update({
  'C04': ('exploration', 'bounded exhaustive enumeration of (instruction form, initial state) pairs against the host CPU',
-         'About 1400 integer-core forms encoded by GNU as; for each the full product of an 18(+2)-value boundary alphabet over its input locations x all 64 '
+         'About 1500 integer-core forms (incl. one register in both positions, esp-addressed stack operands, bit tests with register/immediate offsets on memory) encoded by GNU as; for each the full product of an 18(+2)-value boundary alphabet over its input locations x all 64 '
          'status-flag assignments for flag-reading forms is executed on the host CPU (native runner) and by evaluating the lifted assignment list under '
          'irsem with parallel assignment; GPRs, defined flags, the data window and the control-flow outcome are compared (SDM undefined table masked). '
          'The quick tier caps each form at 3000 states (every k-th element of the product) and is therefore not exhaustive; the thorough tier is.',
          'Trusts the host CPU, the undefined-flag table and irsem. 32-bit values only from the boundary alphabet.', '4 C04'),
  'C07': ('model_checking', 'explicit-state BFS over the real emul_lines/eval_instr with canonical-state de-duplication, every trace replayed against a concrete byte machine',
-         'BFS over instruction sequences (alphabet encoded by GNU as, depth 3/4, canonical state = digest of the pool dump, failing and already-seen states not '
+         'BFS over instruction sequences (alphabet encoded by GNU as; quick: depth 3 over 18 instructions, thorough: depth 3 over 30 and depth 4 over 18; canonical state = digest of the pool dump, failing and already-seen states not '
          'expanded) with the invariant "every register, flag and 8/16/32-bit read-back over the touched windows equals the concrete little-endian byte machine '
          'running the same lifted IR" under 2 valuations; ALL store/load histories with 1..2 (thorough 3) stores + 1 load over widths 8/16/32 x offsets 0..7 x '
-         'constant/symbolic base; rep string instructions with counts 0..3 and at the runaway-guard boundary against the architectural loop.',
+         'constant/symbolic base, each history in a forked child (a failing 3-store history is attributed to its failing 2-store sub-history); rep string instructions (F3 and F2 forms) with counts 0..3 and at the runaway-guard boundary against the architectural loop.',
          'The concrete machine interprets the same lifted IR under irsem (the lifter itself is C04). Different symbolic bases are assumed not to alias.', '4 C07'),
  'C08': ('exploration', 'bounded exhaustive enumeration of (form, base state, perturbed location) triples on the host CPU',
          'For every form (integer core by mnemonic x operand form, 62 x87 forms, 99 MMX/SSE forms) x 3 base states, every location of the observed universe is '
          'perturbed in isolation (2 values) on the CPU; a location that changes a written output is a real read and must be in the union of get_r; every '
-         'location that changes must be in the union of get_w.',
+         'location that changes must be in the union of get_w, and every byte of the data window the processor changes must lie inside a memory destination of get_w evaluated in the base state.',
          'Dependencies are decided on 3 base states x 2 perturbations per location. MXCSR, FIP/FDP/FOP and x87/MMX aliasing are outside the universe.', '4 C08'),
  'C12': ('model_checking', 'explicit-state exploration of API-call histories on the real library (fork per history from a pristine image), pure-function model',
-         'ALL histories of length 1..2 (thorough 3) over an alphabet of 33 API calls run in forked children of a pristine image; after each history every probe '
+         'ALL histories of length 1..2 (thorough 3 over a 26-call sub-alphabet) over an alphabet of 41 API calls (incl. instruction objects held across calls) run in forked children of a pristine image; after each history every probe '
          'runs in its own grand-child and must equal its pristine result (the model); hidden-state fingerprints give states/transitions and the closure of the '
-         'fingerprint set; failures are attributed to their shortest failing sub-history. Plus input immutability over expression trees, instruction objects and '
+         'fingerprint set; failures are attributed to their shortest failing sub-history. Plus all ordered pairs of a 269-line assembler alphabet sharing operand text, input immutability over expression trees, instruction objects, the lifter\'s address argument and '
          'machines, and 11 parser-table cache configurations (incl. a stale table generated by the real PLY from a mutated grammar), each in a fresh process.',
          'The fingerprint covers the instruction/register tables, memo flags on module-level expressions and sys.path. Depth 2/3 only.', '4 C12'),
 })
